@@ -232,8 +232,9 @@ def add_arg(text, names, extra, count=None):
         text = text[:cp] + ins + text[cp:]
         pos = mm.end()
         k += 1
-    if (count is None and k == 0) or (count is not None and count >= 0 and k != count):
-        raise Undecided("add_arg %s: %d call sites, expected %s" % (names, k, ">=1" if count is None else count))
+    # The ghost argument has to reach EVERY call site, however many the function has today: a number that differs from the one
+    # the unit was written against is not an error (a missing or doubled call is for the callee's contract to judge, and a call
+    # site the rule cannot see ends as a compile error -> exit 2).
     return text, k
 
 
@@ -429,8 +430,7 @@ def r10_map_err(text, count=None):
         recv = text[s0:mm.start()]
         text = text[:s0] + "(match %s { Ok(vx_v) => Ok(vx_v), Err(vx_e) => Err(%s(vx_e)) })" % (recv, mm.group(1)) + text[mm.end():]
         k += 1
-    if (count is None and k == 0) or (count is not None and count >= 0 and k != count):
-        raise Undecided("R10e: %d map_err(Variant) sites, expected %s" % (k, count))
+
     return text, k
 
 
